@@ -235,6 +235,7 @@ Proof.
     apply filter_ext. intros x. rewrite (o_echain _ _ H), (o_store _ _ H). reflexivity.
   - rewrite (oeq_nodes_by_label a b l Hl H). reflexivity.
   - rewrite (o_props _ _ H). reflexivity.
+  - rewrite (oeq_scan a b _ 0 SYSTEM Hi Hl H). reflexivity.
 Qed.
 
 (** ** the state inside a transaction of the fragment *)
@@ -457,4 +458,22 @@ Proof.
     split; [exact x_props0|]. split; [exact x_lidx0|]. split; [exact x_en0|].
     split; [intros x; split; [apply x_echain0|apply x_erec0]|]. split; [exact x_fwd0|].
     intros s'. unfold upd. rewrite x_sess0. destruct (Z.eqb_spec s' s); [subst; symmetry; exact Hs|reflexivity].
+Qed.
+
+(** ** latent: a commit that reported an error would not be all-or-nothing.
+    [Session::commit] takes the transaction out of the session, applies the triple buffer
+    ([rdf_store.commit_tx]) and only then asks the manager; a refusal (possible only for a transaction that is
+    not Active — by [commit_never_fails] no history of sessions reaches such a state) would come after the
+    triples have been applied, and nothing removes the transaction's node / edge versions or in-place writes. *)
+Lemma failed_commit_would_leak_l : forall st s t, sess st s = Some t -> tm_state st t <> Some Active ->
+  let st' := fst (step st (Commit s)) in
+  snd (step st (Commit s)) = OErr
+  /\ rdf st' = fold_left apply_pend (rdf_buf st t) (rdf st)
+  /\ sess st' s = None
+  /\ n_chain st' = n_chain st /\ e_chain st' = e_chain st /\ n_props st' = n_props st
+  /\ n_labels st' = n_labels st /\ l_index st' = l_index st /\ tm_state st' = tm_state st.
+Proof.
+  intros st s t Hs Hna. cbn [step]. rewrite Hs. unfold tm_commit. cbn.
+  destruct (tm_state st t) as [[]|] eqn:E; try (exfalso; apply Hna; reflexivity); cbn;
+    unfold upd; rewrite Z.eqb_refl; repeat split; reflexivity.
 Qed.
